@@ -3,6 +3,7 @@
 label=$1; shift
 dst=/verif/seeded/$label
 cd /verif
+export VERIF_SEED_EVIDENCE_DIR=$dst/evidence
 git -C /repo apply $dst/patch.diff || { echo "PATCH DOES NOT APPLY"; exit 1; }
 for p in "$@"; do
   timeout 1500 ./check $p --tier quick > $dst/check_$p.out 2>&1; rc=$?
